@@ -185,6 +185,23 @@ def check_property_theorems(pid):
     return res
 
 
+def coqchk_property(pid):
+    """Thorough tier: re-check P_<pid>.vo and everything it depends on with the independent checker coqchk and
+    report the axioms it finds (must be none).  Returns (ok, text)."""
+    p = subprocess.run(['timeout', '3000', 'coqchk', '-silent', '-o', '-Q', COQ, 'ZT', 'ZT.P_%s' % pid],
+                       stdout=subprocess.PIPE, stderr=subprocess.STDOUT, text=True)
+    out = p.stdout
+    m = re.search(r'\* Axioms:\s*(.*?)\n\s*\n', out, flags=re.S)
+    axioms = m.group(1).strip() if m else 'unparsed'
+    bad = []
+    for key in ('type-in-type', 'unsafe (co)fixpoints', 'positivity is assumed'):
+        mm = re.search(re.escape(key) + r':\s*(\S+)', out)
+        if not mm or mm.group(1) != '<none>':
+            bad.append(key)
+    ok = p.returncode == 0 and axioms == '<none>' and not bad
+    return ok, 'coqchk -o ZT.P_%s: exit %d, axioms %s%s' % (pid, p.returncode, axioms, (', flagged: ' + ', '.join(bad)) if bad else '')
+
+
 def run_cases(pid, chk_module, case_terms, shard=400, extra_imports=(), check_fn='check', timeout=900, case_type=None):
     """Evaluate `check` of chk_module on every case inside Coq; return {index: code} for codes != 0.
     case_terms: list of Gallina terms of type `case`."""
@@ -382,6 +399,12 @@ def standard_check(mod, tier, seed):
         proof = {'obligations': 1, 'discharged': 0, 'theorems': [], 'axioms': [], 'checker_cmd': 'make -C coq',
                  'error': str(e)}
     broken = [t for t in proof['theorems'] if t[1] != 'closed'] or ([('build', proof['error'])] if proof.get('error') else [])
+    if tier == 'thorough' and not broken:
+        ok, text = coqchk_property(mod.PID)
+        rep.notes.append(text)
+        proof['checker_cmd'] += '; coqchk -silent -o -Q coq ZT ZT.P_%s' % mod.PID
+        if not ok:
+            broken = [('coqchk', text)]
     batches = [mod] + list(getattr(mod, 'EXTRA_BATCHES', []))
     for k, b in enumerate(batches):
         if not hasattr(b, 'PID'):
